@@ -74,6 +74,12 @@ def check_sync(ctx, case):
     output = Path(fname) if case['as_path'] else fname
     calls = []
     in_check = [False]
+    scratch = np.zeros(16, dtype='float32')
+    if case.get('sibling_kwargs'):
+        # another Synchronizer of the same process, built with an extra keyword argument for ITS function and never run
+        def other_fn(trace_object, window):
+            return trace_object.samples[:window]
+        scared.Synchronizer(ths, os.path.join(d, 'sibling.ets'), other_fn, window=2)
 
     def fn(trace_object, scale):
         i = int(trace_object.idx[0])
@@ -88,7 +94,12 @@ def check_sync(ctx, case):
             raise (StopIteration if i % 2 == 0 else _StopSub)('an iterator inside the user function was exhausted')
         if a == 'N':
             return None
-        return _transform(trace_object.samples[:], out_len, scale)
+        res = _transform(trace_object.samples[:], out_len, scale)
+        if case.get('reuse_out_buffer'):
+            # the user function hands back a view of ONE scratch buffer that it refills on every call
+            scratch[:len(res)] = res
+            return scratch[:len(res)]
+        return res
     try:
         with warnings.catch_warnings():
             warnings.simplefilter('ignore')
@@ -158,7 +169,7 @@ def check_sync(ctx, case):
              ['n:%s' % ('<=6' if n <= 6 else '>6'), 'all_rejected' if not acc else ('none_rejected' if rej == 0 else 'mixed'),
               'first_rejected' if pattern[0] != 'A' else 'first_accepted', 'last_rejected' if pattern[-1] != 'A' else 'last_accepted',
               'failure_run>=16' if runs >= 16 else 'failure_run>=8' if runs >= 8 else 'failure_run<8', 'path' if case['as_path'] else 'str',
-              'len_differs' if out_len != samples.shape[1] else 'len_same'] + (['check_before_run'] if case.get('check_before') else []) + (['preexisting_output_file'] if case['preexisting'] else []))
+              'len_differs' if out_len != samples.shape[1] else 'len_same'] + (['check_before_run'] if case.get('check_before') else []) + (['function_reuses_one_output_buffer'] if case.get('reuse_out_buffer') else []) + (['sibling_synchronizer_with_other_kwargs'] if case.get('sibling_kwargs') else []) + (['preexisting_output_file'] if case['preexisting'] else []))
 
 
 def replay(ctx, case):
@@ -172,7 +183,8 @@ def _mk(g, pattern, out_len=None):
             'plaintext': g.integers(0, 256, size=(n, 4)).astype('uint8'), 'pattern': list(pattern),
             'out_len': int(g.integers(1, 9)) if out_len is None else out_len, 'scale': float(g.integers(1, 4)),
             'as_path': bool(g.integers(2)), 'overwrite': bool(g.integers(2)), 'preexisting': int(g.integers(1, 4)) if g.integers(5) == 0 else 0,
-            'check_before': int(g.integers(1, 6)) if g.integers(4) == 0 else 0}
+            'check_before': int(g.integers(1, 6)) if g.integers(4) == 0 else 0,
+            'reuse_out_buffer': bool(g.integers(3) == 0), 'sibling_kwargs': bool(g.integers(4) == 0)}
 
 
 def unit_enum(ctx, nmax, shard, nshards):
@@ -209,7 +221,7 @@ def sync_cases(draw):
     return {'kind': 'sync', 'samples': samples, 'plaintext': plaintext, 'pattern': pattern,
             'out_len': draw(st.one_of(st.just(L), st.integers(1, 9))), 'scale': float(draw(st.integers(1, 3))),
             'as_path': draw(st.booleans()), 'overwrite': draw(st.booleans()), 'preexisting': draw(st.sampled_from([0, 0, 0, 1, 2])),
-            'check_before': draw(st.sampled_from([0, 0, 0, 1, 3, 7]))}
+            'check_before': draw(st.sampled_from([0, 0, 0, 1, 3, 7])), 'reuse_out_buffer': draw(st.booleans()), 'sibling_kwargs': draw(st.sampled_from([False, False, True]))}
 
 
 def unit_generated(ctx, n):
